@@ -26,14 +26,16 @@ def pinned(chk):
     import os
     for k in chk.known:
         w = k.get('witness', {})
-        if w.get('kind') == 'FAILNOTABS':
-            src = open(os.path.join(runner.REPO, w['program'])).read()
+        if w.get('kind') in ('FAILNOTABS', 'STALL'):
+            from common import ROOT
+            path = os.path.join(ROOT, w['program']) if w['program'].startswith('corpus/') else os.path.join(runner.REPO, w['program'])
+            src = open(path).read()
             progs = runner.compile_programs([(w['program'], src, w['args'])])
             root = runner.scratch_dir()
             try:
                 runner.build_programs(progs, root)
                 if progs[0].bin:
-                    ok, detail = mc.confirm(progs[0], {'kind': 'FAILNOTABS', 'hist': w['history']})
+                    ok, detail = mc.confirm(progs[0], {'kind': w['kind'], 'hist': w['history']})
                     if ok:
                         chk.known_hits.append((k['id'], 'pinned witness %s %s history %s: %s' % (w['program'], w['args'], w['history'], w.get('observed'))))
             finally:
@@ -44,7 +46,7 @@ def run(tier, seed):
     chk = Check('C10', tier, seed, 'model_checking')
     rng = random.Random(seed * 7919 + 10)
     quick = tier != 'thorough'
-    ngen = 30 if quick else 200
+    ngen = 30 if quick else 90
     items = []
     for name, src, args in runner.corpus_programs(('example', 'ok')):
         a = list(args)
@@ -56,7 +58,7 @@ def run(tier, seed):
         items.append(('gen:%d' % s, src, ['-fyield-support', '-feof-support'] + extra))
     # result-code protocol family: runs of yields / yield-then-finish, at every level (-O3 merges them onto consuming transitions)
     proto = []
-    for i in range(16 if quick else 150):
+    for i in range(16 if quick else 60):
         s = rng.randrange(1 << 30)
         ast, src = genprog.gen_protocol_program(s)
         lvl = ['-O3', '-O1', '-O2', '-O0'][i % 4]
@@ -96,6 +98,11 @@ def run(tier, seed):
                         # first FAIL of the replay: was it returned by <parser>_end ?
                         first = next((c for c, rcs in detail['calls'][1:] if 'FAIL' in rcs), None)
                         fid = 'end-fail-not-absorbing' if first == 256 else None
+                    elif r['kind'] == 'STALL':
+                        # the stalling state is an ordinary state carrying conditional transitions (no symbols): the known class
+                        stq = p.m['states'][r['q']] if 0 <= r.get('q', -1) < len(p.m['states']) else None
+                        if stq and stq['kind'] == 'normal' and stq['trans'] and all(not t['on'] and not t['els'] and not t['end'] for t in stq['trans']):
+                            fid = 'cond-point-at-end-stalls'
                     chk.violation('%s: %s %s history %s -> calls %s' % (r['kind'], p.name, p.args, r['hist'], detail['calls'][-4:]),
                                   {'program': p.name, 'args': p.args, 'source': p.src, 'history': r['hist'], 'kind': r['kind'], 'calls': detail['calls']}, fid)
                 elif ok is False:
